@@ -157,8 +157,7 @@ StrIndex(im) == IF im.strfirst THEN 1 ELSE NSec(im) - 1
 FillFrom(im) == Len(im.secs) + (IF im.strfirst THEN 2 ELSE 1)
 
 \* section-name string table and name offsets
-RECURSIVE NameOffs(_, _)
-NameOffs(names, at) == IF names = <<>> THEN <<>> ELSE <<at>> \o NameOffs(Tail(names), at + Len(Head(names)) + 1)
+NameOffs(names, at) == [k \in 1..Len(names) |-> at + SumR([j \in 1..Len(names) |-> Len(names[j]) + 1], 1, k - 1)]
 AllNames(im) == [k \in 1..Len(im.secs) |-> im.secs[k].name] \o <<ShStrTabName>>
 StrTab(im) == <<0>> \o Flat([k \in 1..Len(AllNames(im)) |-> AllNames(im)[k] \o <<0>>])
 NameOff(im, k) == NameOffs(AllNames(im), 1)[k]                      \* k = Len(secs)+1 is .shstrtab itself
@@ -166,8 +165,7 @@ NameOff(im, k) == NameOffs(AllNames(im), 1)[k]                      \* k = Len(s
 \* file layout: regions in the order the `order` option names
 PhSize(im) == PhEnt(im) * NSeg(im)
 ShSize(im) == ShEnt(im) * NSec(im)
-RECURSIVE SumData(_, _)
-SumData(secs, k) == IF k = 0 THEN 0 ELSE Len(secs[k].data) + SumData(secs, k - 1)
+SumData(secs, k) == SumR([j \in 1..Len(secs) |-> Len(secs[j].data)], 1, k)
 DataSize(im) == SumData(im.secs, Len(im.secs)) + Len(StrTab(im))
 PhOff(im) == CASE im.order = "A" -> EhSize(im)
                [] im.order = "B" -> EhSize(im) + im.gap + ShSize(im)
